@@ -249,6 +249,10 @@ def random_spec(rng):
             spec["body"]["page_by"] = [f"N{j}"]
             if rng.random() < 0.4:
                 spec["body"]["new_page"] = True
+            if rng.random() < 0.3:
+                # the page_by column is ALSO the outermost group_by level (hidden when shown as spanning rows,
+                # but still part of the hierarchical key)
+                spec["body"]["group_by"] = [f"N{j}"] + spec["body"]["group_by"]
         elif r < 0.4 and nn:
             runs = G.split_runs(rng, nn, 3)
             vals = [f"SB0x{k}" for k, ln in enumerate(runs) for _ in range(ln)]
